@@ -65,6 +65,13 @@ func main() {
 			tier = "quick"
 		}
 		os.Exit(runCheck(id, tier))
+	case "writers":
+		p, err := Load(quickPatterns, nil)
+		if err != nil {
+			fmt.Fprintln(os.Stderr, err)
+			os.Exit(2)
+		}
+		debugWriters(p, os.Args[2], os.Args[3])
 	case "selftest":
 		os.Exit(runSelfTest(os.Args[2:]))
 	default:
